@@ -63,6 +63,22 @@ func fill(m protoreflect.Message, seed, depth int) {
 	}
 }
 
+// nudge adds 0.004 to every float / double field of m (nested messages included)
+func nudge(m protoreflect.Message) {
+	m.Range(func(fd protoreflect.FieldDescriptor, v protoreflect.Value) bool {
+		switch {
+		case fd.IsList() || fd.IsMap():
+		case fd.Kind() == protoreflect.FloatKind:
+			m.Set(fd, protoreflect.ValueOfFloat32(float32(v.Float())+0.004))
+		case fd.Kind() == protoreflect.DoubleKind:
+			m.Set(fd, protoreflect.ValueOfFloat64(v.Float()+0.004))
+		case fd.Kind() == protoreflect.MessageKind:
+			nudge(m.Mutable(fd).Message())
+		}
+		return true
+	})
+}
+
 // hint: a few resources only accept values from a documented domain
 func hint(m protoreflect.Message, seed int) {
 	switch m.Descriptor().FullName() {
@@ -418,6 +434,33 @@ func runCase(c tcase) (fails [][2]string, okUpdates int) {
 				st.got, st.names = nil, nil
 			}
 			cur = after
+		}
+		// an update that moves every float of the last written value by a hair (0.004): whether the model's
+		// equivalence calls that a change or not (streams may stay silent), the response must be the next Get
+		if len(c.Updates) > 0 {
+			req := newOf(t.upd.desc.Input())
+			setStr(req, "name", devName)
+			val := newOf(t.res)
+			seed := c.Updates[len(c.Updates)-1]
+			fill(val, seed, 2)
+			hint(val, seed)
+			nudge(val)
+			req.Set(t.updField, protoreflect.ValueOfMessage(val))
+			resp := newOf(t.res).Interface()
+			if uerr := conns[t.upd.svc.Desc.ServiceName].Invoke(ctx, t.upd.full(), req.Interface(), resp); uerr == nil {
+				verifrt.WaitIdle()
+				after, gerr := get("")
+				if gerr != nil {
+					fail("get-error", gerr.Error())
+				} else if !proto.Equal(resp, after) {
+					fail("update-response-not-get", fmt.Sprintf("%s (a value within 0.004 of the previous one) returned %v but the next Get returns %v", t.upd.full(), resp, after))
+				} else {
+					cur = after
+				}
+				for _, st := range streams {
+					st.got, st.names = nil, nil
+				}
+			}
 		}
 		// "An Update rejected with any error status leaves Get unchanged": a mask naming a field that does not exist
 		{
